@@ -1371,7 +1371,7 @@ func TestVerifC14(t *testing.T) {
 		"Stage P (after M): exchange over the HTTP/2 conn tracer with hand-built frames = (server-side / client-side conn, headers, body, cut of the body into DATA frames, PADDED flag and pad length of each frame, " +
 		"carrier of END_STREAM, shape of the HEADERS frames (PADDED, PRIORITY, CONTINUATION), size of the conn Read/Write calls); body events of both directions must equal those of one unpadded DATA frame"
 	if in := rep.ReplayInput(); in != nil {
-		if c14H2Replay(t, r, in) || c14HistoryReplay(t, r, in) || c14MutateReplay(t, r, in) {
+		if c14H2Replay(t, r, in) || c14LargeReplay(t, r, in) || c14HistoryReplay(t, r, in) || c14MutateReplay(t, r, in) {
 			return
 		}
 		c14Replay(t, r, in)
@@ -1379,7 +1379,7 @@ func TestVerifC14(t *testing.T) {
 	}
 	deadline := rep.Deadline()
 	// The cheap stages come first so that a budget hit in the heavy enumeration below cannot starve them.
-	if !c14MutateStage(r, deadline) || !c14H2Stage(r, deadline) || !c14HistoryStage(r, deadline) || !c14ShapeStage(r, deadline) {
+	if !c14MutateStage(r, deadline) || !c14H2Stage(r, deadline) || !c14LargeStage(r, deadline) || !c14HistoryStage(r, deadline) || !c14ShapeStage(r, deadline) {
 		r.NotExhaustive("budget reached before all units were enumerated")
 		return
 	}
